@@ -268,9 +268,19 @@ def canon_value(v):
         return sorted((repr(k), canon_value(x)) for k, x in v.items())
     if isinstance(v, float):
         return ["F", repr(v)]
+    if isinstance(v, int) and not isinstance(v, bool):
+        # 10 and 10.0 are the same stored value (CSV returns the float, the
+        # index the inserted int): one canonical form for both
+        try:
+            f = float(v)
+            if f == v:
+                return ["F", repr(f)]
+        except OverflowError:
+            pass
+        return v
     if isinstance(v, BaseException):
         return ["E", type(v).__name__]
-    if v is None or isinstance(v, (str, int, bool)):
+    if v is None or isinstance(v, (str, bool)):
         return v
     return ["R", type(v).__name__]
 
